@@ -50,13 +50,13 @@ def _crash(v, props):
     mc = _mc(v)
     trace = lib.outpath(v.prop, "crash.ndjson")
     args = ["crash", "--seed", v.seed + (0 if "C01" in props else 1000), "--out", trace,
-            "--scenarios", 18 if quick else 60,
+            "--scenarios", 18 if quick else 40,
             "--rounds", 2 if quick else 3,
             "--calls", 8 if quick else 10,
             "--cap", 24 if quick else 400]
     if not quick:
         args += ["--dense"]
-    s = lib.svh(binary, args, timeout=6000)
+    s = lib.svh(binary, args, timeout=14000)
     msgs, dt, _ = lib.tlc_trace("Trace_Crash.tla", trace, timeout=6000, xmx="8g")
     tool = [m for m in msgs if m.get("kind") == "TOOL"]
     if tool:
